@@ -115,6 +115,23 @@ Json::Value genC19(Rng& rng) {
     plan["clients"].append(cl);
   }
   plan["destruct_early"] = rng.chance(0.3);
+  // a client that asks for all counters and then stops reading while the
+  // reply (thousands of bytes against the smallest socket buffer) is on its
+  // way: the server's 2 s send timeout has to get rid of it, also when the
+  // service is shut down meanwhile
+  if (rng.chance(0.2)) {
+    plan["big_stats"] = (int)rng.pick({300, 600, 1500});
+    plan["small_sndbuf"] = true;
+    Json::Value cl(Json::objectValue);
+    cl["kind"] = "raw";
+    cl["req_hex"] = "670a"; // "g\n"
+    cl["terminated"] = true;
+    cl["behaviour"] = "stall-reading";
+    cl["stall_ns"] = (Json::Int64)rng.pick<int64_t>({3000000000LL, 30000000000LL});
+    cl["delay_ns"] = (Json::Int64)rng.pick<int64_t>({0, 1000000});
+    plan["clients"].append(cl);
+    plan["destruct_early"] = rng.chance(0.6);
+  }
   plan["policy"] = (int)rng.below(3);
   plan["pct_depth"] = (int)rng.range(1, 3);
   plan["spurious_p"] = rng.pick({0.0, 0.0, 0.02});
@@ -294,6 +311,11 @@ void runC19() {
     return;
   }
   Oomd::Stats* sp = stats.get();
+  for (int i = 0; i < R.plan.get("big_stats", 0).asInt(); i++) {
+    char k[48];
+    snprintf(k, sizeof k, "zzfill.counter.number.%06d", i);
+    sp->set(k, 1000000 + i);
+  }
   const Json::Value& api = R.plan["api"];
   const Json::Value& clients = R.plan["clients"];
   std::vector<std::vector<Op>> apiOps(api.size());
@@ -318,6 +340,9 @@ void runC19() {
         else {
           auto m = sp->getAll();
           TsanIgnore ig;
+          for (auto it = m.begin(); it != m.end();)
+            it = it->first.compare(0, 6, "zzfill") == 0 ? m.erase(it)
+                                                        : std::next(it);
           op.result = Map(m.begin(), m.end());
           op.hasResult = true;
         }
@@ -346,6 +371,9 @@ void runC19() {
           auto m = client.getStats();
           TsanIgnore ig;
           if (m) {
+            for (auto it = m->begin(); it != m->end();)
+              it = it->first.compare(0, 6, "zzfill") == 0 ? m->erase(it)
+                                                          : std::next(it);
             op.result = Map(m->begin(), m->end());
             op.hasResult = true;
           }
@@ -414,6 +442,20 @@ void runC19() {
         }
         isReset = mode == 'r';
       }
+      if (beh == "stall-reading") {
+        fired("client-stall-reading");
+        // ask, then read nothing for longer than the server's send timeout
+        sched::sleepFor(cl.get("stall_ns", (Json::Int64)3000000000LL).asInt64());
+        char sink[4096];
+        for (;;) {
+          ssize_t n = ::read(fd, sink, sizeof sink);
+          if (n <= 0)
+            break;
+        }
+        ::close(fd);
+        record("client", who, "stalled-reading");
+        return;
+      }
       if (beh == "close-early") {
         fired("client-reset");
         ::close(fd);
@@ -435,6 +477,8 @@ void runC19() {
           reply.append(buf, n);
           continue;
         }
+        if (n < 0 && errno == EINTR)
+          continue; // the harness client itself was interrupted: read on
         TsanIgnore ig;
         if (n == 0)
           outcomes[c].gotEof = true;
@@ -458,7 +502,8 @@ void runC19() {
           Json::Value j = jparse(reply);
           if (j.isObject() && j["body"].isObject()) {
             for (const auto& k : j["body"].getMemberNames())
-              op.result[k] = j["body"][k].asInt();
+              if (k.compare(0, 6, "zzfill") != 0)
+                op.result[k] = j["body"][k].asInt();
             op.hasResult = true;
           }
         }
@@ -486,6 +531,8 @@ void runC19() {
     op.who = "main";
     op.inv = record("op", "main", "invoke", "final-get").seq;
     auto m = sp->getAll();
+    for (auto it = m.begin(); it != m.end();)
+      it = it->first.compare(0, 6, "zzfill") == 0 ? m.erase(it) : std::next(it);
     op.result = Map(m.begin(), m.end());
     op.hasResult = true;
     op.ret = record("op", "main", "return", "final-get").seq;
@@ -509,7 +556,8 @@ void runC19() {
     const Json::Value& cl = clients[c];
     if (cl["kind"].asString() != "raw" || !outcomes[c].connected)
       continue;
-    if (cl["behaviour"].asString() == "close-early")
+    if (cl["behaviour"].asString() == "close-early" ||
+        cl["behaviour"].asString() == "stall-reading")
       continue;
     const std::string& rep = outcomes[c].reply;
     std::string who = "client " + std::to_string(c) + " (" +
